@@ -24,7 +24,7 @@ func registryKeys() string {
 // released one at a time at yield points compiled into the library, every
 // scheduling decision drawn from the tape, plus the immutability monitor.
 func c18Cooperative(t *tape.Tape, tier Tier, res *Result) {
-	cfg := gen.Config{Alpha: gen.Regular, Swarm: true, MaxDepth: 5, MaxNodes: 10}
+	cfg := gen.Config{Alpha: gen.Regular, Swarm: true, MaxDepth: 5, MaxNodes: 10, Boost: gen.GMulti | gen.GAnnot, BoostFactor: 2}
 	if tier == Thorough {
 		cfg.MaxDepth, cfg.MaxNodes = 6, 16
 	}
@@ -88,6 +88,13 @@ func c18Cooperative(t *tape.Tape, tier Tier, res *Result) {
 	verifyield.Hook = s.Hook
 	s.Run()
 	verifyield.Hook = nil
+	if s.Stuck {
+		// a task blocked on a lock held by a parked task: the cooperative
+		// layer cannot schedule this run (the race layer still applies)
+		res.Discarded = true
+		res.Violations = nil
+		return
+	}
 	for i, task := range s.Tasks {
 		if task.Result != solo[opOf[i]] {
 			res.add(Violation{Prop: "C18", Oracle: "result-differs-from-solo", Culprit: task.Name, Expected: short(solo[opOf[i]]), Observed: short(task.Result),
